@@ -705,7 +705,7 @@ class _PolarityNormaliser(ast.NodeTransformer):
 
 
 class Module:
-    def __init__(self, project, name, path, rel):
+    def __init__(self, project, name, path, rel, normalise=True):
         self.project, self.name, self.path, self.rel = project, name, path, rel
         with open(path, 'rb') as f:
             raw = f.read()
@@ -715,7 +715,8 @@ class Module:
             self.tree = ast.parse(self.src, filename=path)
         except SyntaxError as ex:
             raise AnalysisError('cannot parse %s: %s' % (rel, ex))
-        _PolarityNormaliser().visit(self.tree)
+        if normalise:
+            _PolarityNormaliser().visit(self.tree)
         self.is_pkg = os.path.basename(path) == '__init__.py'
         self.imports = {}  # local name -> ('mod', dotted) | ('obj', dotted_mod, attr)
         self.functions = {}  # top-level name -> FuncInfo
@@ -758,8 +759,9 @@ class Module:
 
 
 class Project:
-    def __init__(self, root):
+    def __init__(self, root, inline=False):
         self.root = os.path.abspath(root)
+        self.inline = inline
         self.pkgdir = os.path.join(self.root, PKG)
         if not os.path.isdir(self.pkgdir):
             raise AnalysisError('package directory %s not found' % self.pkgdir)
@@ -778,9 +780,22 @@ class Project:
                 if parts[-1] == '__init__':
                     parts = parts[:-1]
                 name = '.'.join(parts)
-                m = Module(self, name, path, rel)
+                m = Module(self, name, path, rel, normalise=not inline)
                 self.modules[name] = m
                 self.by_rel[rel] = m
+        self.n_inlined = 0
+        if inline:
+            # the equivalent view with new private helpers expanded at their
+            # call sites (sa/inline.py): done on the source as written, the
+            # canonical forms are computed afterwards
+            from .inline import inline_modules
+            self.n_inlined = inline_modules(
+                {m.rel: m.tree for m in self.modules.values()})
+            for m in self.modules.values():
+                _PolarityNormaliser().visit(m.tree)
+            from .inline import _renumber
+            for m in self.modules.values():
+                _renumber(m.tree)
         # a private definition that was only renamed is renamed back, so the
         # rules find their anchors (sa/anchors.py)
         from .anchors import rename_back
